@@ -9,12 +9,12 @@ section Link
 variable {Id Res L K V O : Type} [DecidableEq Id] [DecidableEq Res] [DecidableEq L]
   [DecidableEq K] [DecidableEq O]
 
-/-- mechanism's action vs. the reference's new contribution (and its history of results) -/
+/-- mechanism's action vs. the reference's new contribution -/
 def Act.agrees (a : Act K V) (r r' : RefSt K V) : Prop :=
   match a with
-  | .keep => r'.contrib = r.contrib ∧ r'.hist = r.hist
-  | .discard => r'.contrib = [] ∧ r'.hist = r.hist
-  | .replace m => r'.contrib = m ∧ r'.hist = m :: r.hist
+  | .keep => r'.contrib = r.contrib
+  | .discard => r'.contrib = []
+  | .replace m => r'.contrib = m
 
 /-- The event's own object: the memory after the mechanism's step is the reference's exclusion
     record, and the mechanism's action on the index is the rule the reference applies. -/
@@ -75,239 +75,70 @@ theorem refStep_other (cfg : List (Indexer Id Res L)) (bk : Nat) (c : Indexer Id
   unfold refStep
   simp [Ne.symm h]
 
-theorem view_other (veq : V → V → Bool) (a : Act K V) (obj : O) (old : Option K → O → Option V)
-    (k : Option K) (o : O) (h : o ≠ obj) : a.view veq obj old k o = old k o := by
+theorem view_other (a : Act K V) (obj : O) (old : Option K → O → Option V)
+    (k : Option K) (o : O) (h : o ≠ obj) : a.view obj old k o = old k o := by
   cases a <;> simp [Act.view, h]
 
-omit [DecidableEq K] [DecidableEq O] in
-theorem Rel.refl (veq : V → V → Bool) (x : Option V) : Rel veq x x := by
-  cases x <;> simp [Rel]
-
-omit [DecidableEq K] [DecidableEq O] in
-/-- with an equality test that only identifies identical values the relation is equality -/
-theorem Rel.eq_of_lawful {veq : V → V → Bool} (hveq : ∀ a b, veq a b = true → a = b)
-    {x y : Option V} (h : Rel veq x y) : x = y := by
-  cases x <;> cases y <;> simp [Rel] at h ⊢
-  rcases h with h | h
-  · exact h
-  · exact hveq _ _ h
-
-theorem foldVal_rel {κ : Type} [DecidableEq κ] (veq : V → V → Bool) (k : κ) (m : List (κ × V)) :
-    ∀ cur : Option V, k ∈ m.map Prod.fst → Rel veq (foldVal veq k m cur) (lastval k m) := by
-  induction m with
-  | nil => intro cur h; simp at h
-  | cons p r ih =>
-    obtain ⟨k', v⟩ := p
-    intro cur h
-    simp only [foldVal, lastval]
-    by_cases hkr : k ∈ r.map Prod.fst
-    · have := ih (if k' = k then some (keepOld veq cur v) else cur) hkr
-      have hs := (lastval_isSome k r).2 hkr
-      cases hl : lastval k r with
-      | none => simp [hl] at hs
-      | some x => simpa [hl] using this
-    · have hk : k' = k := by
-        simp only [List.map_cons, List.mem_cons] at h
-        rcases h with h | h
-        · exact h.symm
-        · exact absurd h hkr
-      rw [foldVal_not_mem veq k r _ hkr, lastval_none_of_not_mem k r hkr]
-      simp only [hk, if_true]
-      unfold keepOld
-      cases cur with
-      | none => simp [Rel]
-      | some v' =>
-        by_cases hv : veq v' v = true
-        · simp [hv, Rel]
-        · simp [hv, Rel]
-
-/-- where a merged value comes from: it was stored before, or it is a value of `m` under `k` -/
-theorem foldVal_origin {κ : Type} [DecidableEq κ] (veq : V → V → Bool) (k : κ) (m : List (κ × V)) :
-    ∀ (cur : Option V) (v' : V), foldVal veq k m cur = some v' → cur = some v' ∨ (k, v') ∈ m := by
-  induction m with
-  | nil => intro cur v' h; exact Or.inl h
-  | cons p r ih =>
-    obtain ⟨k', v⟩ := p
-    intro cur v' h
-    simp only [foldVal] at h
-    rcases ih _ v' h with h1 | h1
-    · by_cases hk : k' = k
-      · simp only [hk, if_true, Option.some.injEq] at h1
-        unfold keepOld at h1
-        cases cur with
-        | none => simp at h1; subst h1; subst hk; exact Or.inr (by simp)
-        | some c =>
-          by_cases hv : veq c v = true
-          · simp [hv] at h1; subst h1; exact Or.inl rfl
-          · simp [hv] at h1; subst h1; subst hk; exact Or.inr (by simp)
-      · simp only [hk, if_false] at h1; exact Or.inl h1
-    · exact Or.inr (by simp [h1])
-
-theorem lastval_mem {κ ν : Type} [DecidableEq κ] (k : κ) (m : List (κ × ν)) (v : ν)
-    (h : lastval k m = some v) : (k, v) ∈ m := by
-  induction m with
-  | nil => simp [lastval] at h
-  | cons p r ih =>
-    obtain ⟨k', v0⟩ := p
-    simp only [lastval] at h
-    cases hl : lastval k r with
-    | some x => simp only [hl, Option.some.injEq] at h; subst h; simp [ih hl]
-    | none =>
-      simp only [hl] at h
-      by_cases hk : k' = k
-      · simp only [hk, if_true, Option.some.injEq] at h; subst h; subst hk; simp
-      · simp [hk] at h
-
-omit [DecidableEq O] in
-theorem RelH.mono {veq : V → V → Bool} {hist hist' : List (List (Option K × V))} {k : Option K}
-    {x y : Option V} (hsub : ∀ m, m ∈ hist → m ∈ hist') (h : RelH veq hist k x y) : RelH veq hist' k x y := by
-  cases x <;> cases y <;> simp only [RelH] at h ⊢
-  rcases h with h | ⟨h1, m, hm, hk⟩
-  · exact Or.inl h
-  · exact Or.inr ⟨h1, m, hsub m hm, hk⟩
-
-omit [DecidableEq O] in
-theorem RelH.toRel {veq : V → V → Bool} {hist : List (List (Option K × V))} {k : Option K}
-    {x y : Option V} (h : RelH veq hist k x y) : Rel veq x y := by
-  cases x <;> cases y <;> simp only [RelH, Rel] at h ⊢
-  rcases h with h | ⟨h1, _⟩
-  · exact Or.inl h
-  · exact Or.inr h1
-
-/-- from agreement in kind to the value relation with provenance -/
-theorem relH_of_agrees (veq : V → V → Bool) (a : Act K V) (r r' : RefSt K V) (obj : O)
+/-- from agreement in kind to the values -/
+theorem val_of_agrees (a : Act K V) (r r' : RefSt K V) (obj : O)
     (old : Option K → O → Option V) (ha : a.agrees r r')
-    (hin : r.contrib = [] ∨ r.contrib ∈ r.hist)
-    (hv : ∀ k, RelH veq r.hist k (old k obj) (lastval k r.contrib)) (k : Option K) :
-    RelH veq r'.hist k (a.view veq obj old k obj) (lastval k r'.contrib) := by
+    (hv : ∀ k, old k obj = lastval k r.contrib) (k : Option K) :
+    a.view obj old k obj = lastval k r'.contrib := by
   cases a with
-  | keep =>
-    simp only [Act.agrees] at ha
-    rw [ha.1, ha.2]; simpa [Act.view] using hv k
-  | discard =>
-    simp only [Act.agrees] at ha
-    rw [ha.1]; simp [Act.view, lastval, RelH]
-  | replace m =>
-    simp only [Act.agrees] at ha
-    rw [ha.1, ha.2]
-    simp only [Act.view, if_true]
-    by_cases hk : k ∈ m.map Prod.fst
-    · simp only [hk, if_true]
-      have hrel := foldVal_rel veq k m (old k obj) hk
-      cases hf : foldVal veq k m (old k obj) with
-      | none =>
-        rw [hf] at hrel
-        cases hl : lastval k m <;> simp [hl, Rel] at hrel ⊢
-        simp [RelH]
-      | some v' =>
-        rw [hf] at hrel
-        cases hl : lastval k m with
-        | none => simp [hl, Rel] at hrel
-        | some v =>
-          simp only [hl, Rel] at hrel
-          simp only [RelH]
-          rcases hrel with h1 | h1
-          · exact Or.inl h1
-          · refine Or.inr ⟨h1, ?_⟩
-            rcases foldVal_origin veq k m _ v' hf with h2 | h2
-            · -- the value was stored before: by the link it is the old latest or an older result
-              have hold := hv k
-              rw [h2] at hold
-              cases hlo : lastval k r.contrib with
-              | none => simp [hlo, RelH] at hold
-              | some vo =>
-                simp only [hlo, RelH] at hold
-                rcases hold with h3 | ⟨_, m', hm', hk'⟩
-                · subst h3
-                  have hmem := lastval_mem k r.contrib v' hlo
-                  rcases hin with h4 | h4
-                  · rw [h4] at hmem; simp at hmem
-                  · exact ⟨r.contrib, by simp [h4], hmem⟩
-                · exact ⟨m', by simp [hm'], hk'⟩
-            · exact ⟨m, by simp, h2⟩
-    · rw [lastval_none_of_not_mem k m hk]
-      simp [hk, RelH]
-
-/-- the latest contribution is one of the recorded results -/
-theorem contrib_in_hist_of_agrees (a : Act K V) (r r' : RefSt K V) (ha : a.agrees r r')
-    (hin : r.contrib = [] ∨ r.contrib ∈ r.hist) : r'.contrib = [] ∨ r'.contrib ∈ r'.hist := by
-  cases a with
-  | keep => simp only [Act.agrees] at ha; rw [ha.1, ha.2]; exact hin
-  | discard => simp only [Act.agrees] at ha; exact Or.inl ha.1
-  | replace m => simp only [Act.agrees] at ha; rw [ha.1, ha.2]; exact Or.inr (by simp)
+  | keep => simp only [Act.agrees] at ha; rw [ha]; simpa [Act.view] using hv k
+  | discard => simp only [Act.agrees] at ha; rw [ha]; simp [Act.view, lastval]
+  | replace m => simp only [Act.agrees] at ha; rw [ha]; simp [Act.view]
 
 /-- the index/reference link maintained by every step -/
-def Link (veq : V → V → Bool) (cfg : List (Indexer Id Res L)) (s : State Id K V O)
+def Link (cfg : List (Indexer Id Res L)) (s : State Id K V O)
     (R : Indexer Id Res L → O → RefSt K V) : Prop :=
   ∀ c ∈ cfg, ∀ o, s.mem o c.id = (R c o).excl ∧
-    ((R c o).contrib = [] ∨ (R c o).contrib ∈ (R c o).hist) ∧
-    ∀ k, RelH veq (R c o).hist k ((s.ixs c.id).val k o) (lastval k (R c o).contrib)
+    ∀ k, (s.ixs c.id).val k o = lastval k (R c o).contrib
 
-theorem mirror_gen (veq : V → V → Bool) (cfg : List (Indexer Id Res L)) (bk : Nat)
+theorem mirror_gen (cfg : List (Indexer Id Res L)) (bk : Nat)
     (hnd : (cfg.map (·.id)).Nodup) (evs : List (Event Id Res L K V O)) :
-    ∀ (s : State Id K V O) (R : Indexer Id Res L → O → RefSt K V), s.InvAll → Link veq cfg s R →
-      ∃ s', run veq cfg bk s evs = some s' ∧ s'.InvAll ∧
-        Link veq cfg s' (fun c o => refRun cfg bk c o (R c o) evs) := by
+    ∀ (s : State Id K V O) (R : Indexer Id Res L → O → RefSt K V), s.InvAll → Link cfg s R →
+      ∃ s', run cfg bk s evs = some s' ∧ s'.InvAll ∧
+        Link cfg s' (fun c o => refRun cfg bk c o (R c o) evs) := by
   induction evs with
   | nil => intro s R hi hl; exact ⟨s, rfl, hi, hl⟩
   | cons e es ih =>
     intro s R hi hl
-    obtain ⟨s1, h1, h2, h3, h4, h5⟩ := step_spec veq cfg bk hnd s e hi
-    have hl1 : Link veq cfg s1 (fun c o => refStep cfg bk c o (R c o) e) := by
+    obtain ⟨s1, h1, h2, h3, h4, h5⟩ := step_spec cfg bk hnd s e hi
+    have hl1 : Link cfg s1 (fun c o => refStep cfg bk c o (R c o) e) := by
       intro c hc o
       by_cases ho : o = e.obj
       · subst ho
-        obtain ⟨hm, hin, hv⟩ := hl c hc e.obj
+        obtain ⟨hm, hv⟩ := hl c hc e.obj
         obtain ⟨a, b⟩ := link_obj cfg bk s e c (R c e.obj) hm
-        refine ⟨by rw [h4 c hc]; exact a, contrib_in_hist_of_agrees _ _ _ b hin, ?_⟩
+        refine ⟨by rw [h4 c hc]; exact a, ?_⟩
         intro k
         rw [h3 c hc k e.obj]
-        exact relH_of_agrees veq _ _ _ e.obj _ b hin hv k
-      · obtain ⟨hm, hin, hv⟩ := hl c hc o
+        exact val_of_agrees _ _ _ e.obj _ b hv k
+      · obtain ⟨hm, hv⟩ := hl c hc o
         simp only [refStep_other cfg bk c o (R c o) e ho]
-        refine ⟨by rw [h5 o ho]; exact hm, hin, ?_⟩
+        refine ⟨by rw [h5 o ho]; exact hm, ?_⟩
         intro k
-        rw [h3 c hc k o, view_other _ _ _ _ _ _ ho]
+        rw [h3 c hc k o, view_other _ _ _ _ _ ho]
         exact hv k
     obtain ⟨s', g1, g2, g3⟩ := ih s1 _ h2 hl1
     exact ⟨s', by simp [run, h1, g1], g2, g3⟩
 
 omit [DecidableEq Id] [DecidableEq Res] [DecidableEq L] in
-theorem link_init (veq : V → V → Bool) (cfg : List (Indexer Id Res L)) :
-    Link veq cfg (State.init : State Id K V O) (fun _ _ => RefSt.init) := by
+theorem link_init (cfg : List (Indexer Id Res L)) :
+    Link cfg (State.init : State Id K V O) (fun _ _ => RefSt.init) := by
   intro c _ o
-  refine ⟨rfl, Or.inl rfl, ?_⟩
+  refine ⟨rfl, ?_⟩
   intro k
-  simp [State.init, Index.val, Index.empty, RefSt.init, lastval, RelH]
-
-omit [DecidableEq O] in
-/-- exact equality from the provenance relation when the history has no `==`-twins -/
-theorem RelH.eq_of_noTwins {veq : V → V → Bool} {hist : List (List (Option K × V))} {k : Option K}
-    {contrib : List (Option K × V)} {x : Option V}
-    (hin : contrib = [] ∨ contrib ∈ hist) (hnt : NoTwins veq hist)
-    (h : RelH veq hist k x (lastval k contrib)) : x = lastval k contrib := by
-  cases hx : x with
-  | none => rw [hx] at h; cases hl : lastval k contrib <;> simp [hl, RelH] at h ⊢
-  | some v' =>
-    rw [hx] at h
-    cases hl : lastval k contrib with
-    | none => simp [hl, RelH] at h
-    | some v =>
-      simp only [hl, RelH] at h
-      rcases h with h | ⟨hv, m, hm, hk⟩
-      · rw [h]
-      · have hmem := lastval_mem k contrib v hl
-        rcases hin with h0 | h0
-        · rw [h0] at hmem; simp at hmem
-        · rw [hnt m hm contrib h0 k v' v hk hmem hv]
+  simp [State.init, Index.val, Index.empty, RefSt.init, lastval]
 
 /-- the per-index effect of one step, extracted from `step_spec` -/
-theorem view_of_step (veq : V → V → Bool) (cfg : List (Indexer Id Res L)) (bk : Nat)
+theorem view_of_step (cfg : List (Indexer Id Res L)) (bk : Nat)
     (hnd : (cfg.map (·.id)).Nodup)
     (s s' : State Id K V O) (e : Event Id Res L K V O) (hi : s.InvAll)
-    (hs : step veq cfg bk s e = some s') (c : Indexer Id Res L) (hc : c ∈ cfg) (k : Option K) (o : O) :
-    (s'.ixs c.id).val k o = (actOf cfg bk s e c).view veq e.obj (s.ixs c.id).val k o := by
-  obtain ⟨s1, h1, _, h3, _, _⟩ := step_spec veq cfg bk hnd s e hi
+    (hs : step cfg bk s e = some s') (c : Indexer Id Res L) (hc : c ∈ cfg) (k : Option K) (o : O) :
+    (s'.ixs c.id).val k o = (actOf cfg bk s e c).view e.obj (s.ixs c.id).val k o := by
+  obtain ⟨s1, h1, _, h3, _, _⟩ := step_spec cfg bk hnd s e hi
   rw [hs] at h1; cases h1
   exact h3 c hc k o
 
